@@ -128,6 +128,7 @@ func TestC15(t *testing.T) {
 		rep := sc.Replay()
 		rep["mode"] = what
 		rep["choices"] = x.Choices
+		rep["global_depth"] = gdepth
 		for k, v := range plan {
 			rep[k] = v
 		}
